@@ -880,8 +880,7 @@ def units(prop, tier, seed):
             for stock, cls, tr in combos:
                 if tier == "quick" and stock and w not in (80, 1):
                     continue
-                if tier == "quick" and not stock and (WIDTHS.index(w) + len(cls) + (tr == "unix")) % 2:
-                    continue
+
                 yield ("c16", (stock, cls, w, tr, subseed(seed, prop, i)), next(order))
                 i += 1
         if tier != "quick":
